@@ -89,11 +89,20 @@ def run(tier, seed):
     os.environ["VERIF_C09"] = "1"
     chains, cases, tot = c08.collect(tier, seed, v, root, keep=in_scope)
     by = {c["name"]: c for c in cases}
-    per_case = {}
+    per_case, n_missing = {}, 0
     for vd in tot["verdicts"]:
         if vd["clause"].startswith("stuck:") or vd["clause"] == "diverges":
             v.machinery_failure("the machine could not execute %s: %s" % (vd["case"], vd["clause"]))
             continue
+        if vd["clause"]:
+            # the other half of "exactly the union": the machine (Covers in GIRMachine.tla, the judgement C08 uses for every value kind) found a
+            # definition event of this behaviour that no abstract state of the statement covers - the value of a path is missing
+            case = by[vd["case"]]
+            unc = vd.get("uncovered") or []
+            n_missing += 1
+            v.violation("value_of_a_path_missing:%s" % vd["case"].split("__")[1],
+                        {"chain": vd["case"], "clause": "value_of_a_path_missing", "source": case["source"],
+                         "uncovered": [{"line": case["_lines"].get(d["s"]), "statement": d["s"], "event": c08.show(d)} for d in unc[:6]]})
         per_case.setdefault(vd["case"], []).append(vd)
     exact_cases, n_items = [], 0
     for name, vds in sorted(per_case.items()):
@@ -135,7 +144,7 @@ def run(tier, seed):
     cov = {
         "states": tot["states"] + r.distinct, "transitions": tot["transitions"] + r.generated, "traces_validated_against_impl": len(exact_cases),
         "samples": [{"chain": c["name"], "items": c["items"][:5]} for c in exact_cases[:2]],
-        "programs": len(exact_cases), "behaviours_united": len(tot["verdicts"]), "definition_points_judged": n_items, "violating_programs": n_bad,
+        "programs": len(exact_cases), "behaviours_united": len(tot["verdicts"]), "definition_points_judged": n_items, "violating_programs": n_bad, "behaviours_with_a_missing_value": n_missing,
         "out_of_scope_steps": sorted(OUT_OF_SCOPE), "known_findings_hit": {k: len(x) for k, x in v.hits.items()}, "repo": C.repo_head(),
         "exhaustive": tier == "thorough",
         "rule": "a case = one loop-free integer value program; concrete = union of GIRMachine's definition events over all its behaviours; abstract = regular "
